@@ -127,7 +127,7 @@ func init() {
 		{"GRAPHINV.expose", "graph/simple/dense_directed_matrix.go", "\t\tnodes := make([]graph.Node, len(g.nodes))\n\t\tcopy(nodes, g.nodes)\n\t\treturn iterator.NewOrderedNodes(nodes)", "\t\tnodes := g.nodes[:len(g.nodes)]\n\t\treturn iterator.NewOrderedNodes(nodes)", func() *core.Result { return graphinv.RunExpose(def) }},
 		{"RESET.revive", "graph/formats/rdf/rdf.go", "\tdec.strings = make(store)\n\tif dec.ids == nil {\n", "\tif dec.ids == nil {\n\t\tdec.strings = make(store)\n", func() *core.Result { return decode.RunRevive(def, core.Pkgs("./graph/formats/rdf")) }},
 		{"OPT.maskpair", "optimize/local.go", "if needs.Hessian && op&HessEvaluation == 0 {", "if needs.Hessian && op&GradEvaluation == 0 {", func() *core.Result { return initx.RunMaskPair(def, core.Pkgs("./optimize")) }},
-		{"MAT.selfguard", "mat/vector.go", "\tif v == a {\n\t\treturn\n\t}\n\tn := a.Len()\n\tv.mat = blas64.Vector{\n\t\tN:    n,\n\t\tInc:  1,\n\t\tData: use(v.mat.Data, n),\n\t}\n", "\tn := a.Len()\n\tv.mat = blas64.Vector{\n\t\tN:    n,\n\t\tInc:  1,\n\t\tData: use(v.mat.Data, n),\n\t}\n\tif v == a {\n\t\treturn\n\t}\n", func() *core.Result { return matargs.RunSelfGuard(def) }},
+		{"MAT.selfguard", "mat/vector.go", "\tif v == a {\n\t\treturn\n\t}\n\tn := a.Len()\n\tif v.IsEmpty() ||\x00\tif r, ok := a.(RawVectorer); ok {\n\t\tblas64.Copy(r.RawVector(), v.mat)", "\tn := a.Len()\n\tif v.IsEmpty() ||\x00\tif v == a {\n\t\treturn\n\t}\n\tif r, ok := a.(RawVectorer); ok {\n\t\tblas64.Copy(r.RawVector(), v.mat)", func() *core.Result { return matargs.RunSelfGuard(def) }},
 		{"CMPLX.parts", "dsp/window/window_complex.go", "w := a0 - a1*math.Cos(x) + a2*math.Cos(2*x) - a3*math.Cos(3*x)\n\t\tseq[i] = complex(w*real(v), w*imag(v))", "w := a0 - a1*math.Cos(x) + a2*math.Cos(2*x) - a3*math.Cos(3*x)\n\t\tseq[i] = complex(w*real(v), w*real(v))", func() *core.Result { return swapx.Run(def, core.Pkgs("./dsp/window")) }},
 		{"FLAG.cholorder", "lapack/gonum/dpotrs.go", "bi.Dtrsm(blas.Left, blas.Lower, blas.NoTrans, blas.NonUnit, n, nrhs, 1, a, lda, b, ldb)", "bi.Dtrsm(blas.Left, blas.Lower, blas.Trans, blas.NonUnit, n, nrhs, 1, a, lda, b, ldb)\n\t\tbi.Dtrsm(blas.Left, blas.Lower, blas.NoTrans, blas.NonUnit, n, nrhs, 1, a, lda, b, ldb)\n\t\tif false {\n\t\t}", func() *core.Result { return flagx.RunCholOrder(def, core.Pkgs("./lapack/gonum")) }},
 		{"ALPHA.noread", "blas/gonum/dgemm.go", "\tif alpha == 0 {\n\t\t// A and B are not referenced.\n\t\treturn\n\t}\n", "", func() *core.Result { return flagx.RunAlphaZero(def, core.Pkgs("./blas/gonum")) }},
